@@ -388,7 +388,7 @@ class MemoryFieldArray:
         """
         if self._dataset is None:
             # raise ValueError("Cannot get data from an empty Field")
-            return np.zeros(0, dtype=np.uint8)
+            return np.zeros(0, dtype=self._dtype)
         return self._dataset[item]
 
     def __setitem__(self, key, value):
